@@ -32,6 +32,13 @@
 (*   printed-ids (explicit IDs kept by the printer), printed-refs (every   *)
 (*   printed reference is the target's ID).                                *)
 (*                                                                         *)
+(* md_iso_rec.ndjson -- isolation, one row per pair of texts (A, B) parsed  *)
+(* in one process: {"a","b", "shared_same":[types of node objects reachable *)
+(* from two separate parses of A], "shared_diff":[... from A and from B],  *)
+(* "b_changed": B prints differently after every inline node of A was      *)
+(* hoisted into A's MetadataDefs and A was printed, "fresh_differs": a     *)
+(* fresh parse of B's text prints differently from B's first print}.       *)
+(*                                                                         *)
 (* Every failing (row, law) is printed as <<"BADROW", file, law, row>>;    *)
 (* the invariant itself is always true (the harness classifies the list).  *)
 (***************************************************************************)
@@ -41,10 +48,12 @@ M == INSTANCE Metadata WITH MaxDefs <- 0, MaxId <- 0, Variant <- "code", Emit <-
                             ids <- <<>>, shape <- 0, stage <- "none"
 G == INSTANCE MetadataGraph WITH MaxN <- 0, Emit <- FALSE, pat <- <<>>, stage <- "none"
 
+Iso   == ndJsonDeserialize("md_iso_rec.ndjson")
 IR    == ndJsonDeserialize("md_ir_rec.ndjson")
 Parse == ndJsonDeserialize("md_parse_rec.ndjson")
 N1 == Len(IR)
 N2 == Len(Parse)
+N3 == Len(Iso)
 
 Chk(cond, file, law, r) == IF cond THEN 0 ELSE IF PrintT(<<"BADROW", file, law, r>>) THEN 1 ELSE 1
 
@@ -96,11 +105,20 @@ ParseBad(r) == LET row == Parse[r] w == row.want IN
   + Chk(row.printed.tokens = [x \in 1..Len(w.defs) |-> <<w.defs[x].id>> \o G!FlatRefs(w.defs[x].ops)],
         "parse", "printed-refs", r)
 
+\* Cross-module isolation: modules parsed separately in one process share no metadata node
+\* object (metadata.Null excepted), so nothing done to one module -- hoisting its inline nodes
+\* into MetadataDefs, numbering, printing -- can show in another.
+IsoBad(r) == LET row == Iso[r] IN
+    Chk(row.shared_same = <<>>, "iso", "no-node-shared-by-two-parses-of-one-text", r)
+  + Chk(row.shared_diff = <<>>, "iso", "no-node-shared-by-two-modules", r)
+  + Chk(~row.b_changed, "iso", "untouched-module-prints-as-before", r)
+  + Chk(~row.fresh_differs, "iso", "fresh-parse-prints-alike", r)
+
 VARIABLE l
 Init == l = 0
-Next == l < N1 + N2 /\ l' = l + 1
+Next == l < N1 + N2 + N3 /\ l' = l + 1
 Spec == Init /\ [][Next]_l
 
 \* always true: the verdict is the BADROW list
-RowOK == l >= 1 => (IF l <= N1 THEN IRBad(l) ELSE ParseBad(l - N1)) >= 0
+RowOK == l >= 1 => (IF l <= N1 THEN IRBad(l) ELSE IF l <= N1 + N2 THEN ParseBad(l - N1) ELSE IsoBad(l - N1 - N2)) >= 0
 =============================================================================
